@@ -15,7 +15,7 @@ RULE = (
     "argument check, exactly one body event before a rejected return check. non-trivial = distinct line whose argument or return phase "
     "violates by the oracle"
 )
-RULE += " Also: one decorator object applied to several functions; functions whose only dltype hint is the return annotation; Optional[tuple[...]] with None elements."
+RULE += " Also: one decorator object applied to several functions; functions whose only dltype hint is the return annotation; Optional[tuple[...]] with None elements. The provider histories of C12 (order-of-checks demands); the callable family of C08."
 
 
 def cases(tier, rng, run):
